@@ -446,6 +446,10 @@ func (b *UnsafeLinkBuffer) MallocAck(n int) (err error) {
 	}
 	b.mallocSize = n
 	b.write = b.flush
+	if n == 0 {
+		// keep nothing: also drop the malloc bytes of the flush node
+		b.write.malloc = len(b.write.buf)
+	}
 
 	var l int
 	for ack := n; ack > 0; ack = ack - l {
